@@ -461,7 +461,7 @@ var c18AmbientTable = map[string]string{
 // C18.R3 determinism.
 func c18R3(c *Ctx) {
 	const rule = "C18.R3"
-	c.explain("C18.R3 handlers call nothing from time, math/rand, crypto/rand or os (except the two tabled functions) and read no package-level variable")
+	c.explain("C18.R3 handlers — and the type handlers of dynamically typed functions, with the package helpers either of them calls — call nothing from time, math/rand, crypto/rand or os (except the two tabled functions) and use no package-level variable: results and derived types depend on the arguments only, not on earlier evaluations")
 	for _, bf := range c.builtinFns() {
 		key := "deterministic:" + bf.id
 		if bf.ssaHandler == nil {
@@ -470,8 +470,45 @@ func c18R3(c *Ctx) {
 			continue
 		}
 		var bad []string
-		for _, fn := range fnAndAnons(bf.ssaHandler) {
+		scanFns := fnAndAnons(bf.ssaHandler)
+		// the type handler of a dynamically typed function, and the package's own helpers that either handler calls
+		if bf.dynamic && len(bf.call.Args) >= 5 {
+			if id, ok := bf.call.Args[4].(*ast.Ident); ok {
+				if th := c.FnOpt("builtinfunctions." + id.Name); th != nil {
+					scanFns = append(scanFns, fnAndAnons(th)...)
+				} else {
+					bad = append(bad, "type handler "+id.Name+" not found")
+				}
+			}
+		}
+		seenFn := map[*ssa.Function]bool{}
+		for i := 0; i < len(scanFns); i++ {
+			fn := scanFns[i]
+			if seenFn[fn] {
+				continue
+			}
+			seenFn[fn] = true
 			eachInstr(fn, func(r instrRef) {
+				if cc := callCommon(r.I); cc != nil {
+					if callee := cc.StaticCallee(); callee != nil && callee.Pkg == fn.Pkg && !seenFn[callee] && len(callee.Blocks) > 0 {
+						scanFns = append(scanFns, fnAndAnons(callee)...)
+					}
+				}
+			})
+		}
+		for _, fn := range scanFns {
+			eachInstr(fn, func(r instrRef) {
+				// any use of a package-level variable (read, write, or its address handed to a method such as sync.Map.Load)
+				for _, op := range r.I.Operands(nil) {
+					if op == nil || *op == nil {
+						continue
+					}
+					if gl, ok := (*op).(*ssa.Global); ok && c.inRepoPkg(gl) {
+						if _, isLoad := r.I.(*ssa.UnOp); !isLoad {
+							bad = append(bad, "uses package variable "+gl.Name()+" (state shared by all evaluations)")
+						}
+					}
+				}
 				if cc := callCommon(r.I); cc != nil {
 					nm := calleeName(cc)
 					if strings.HasPrefix(nm, "time.") || strings.HasPrefix(nm, "math/rand") || strings.HasPrefix(nm, "crypto/rand") || strings.HasPrefix(nm, "os.") || strings.HasPrefix(nm, "(*math/rand.Rand)") {
